@@ -4,7 +4,7 @@ from common import *
 import facts as factsmod
 
 
-def gen_stream(tier, seed, known):
+def gen_stream(tier, seed, known, fams=()):
     rnd = random.Random(seed)
     ws = []          # ("H", bytes) or ("G", len, seed)
 
@@ -25,6 +25,14 @@ def gen_stream(tier, seed, known):
         b = w.encode()
         H(b); H(b[:-1]); H(b + b"x"); H(b + b"\0"); H(b"x" + b)
         e = bytearray(b); e[len(b) // 2] ^= 0x20; H(e)
+    # words with EQUAL std::hash codes (built by inverting the hash): what the pool does inside one slot. Each family holds
+    # words of different lengths, a word and a strict prefix of it, equal-length members; every member is interned, then
+    # every member again, in an order that differs from family to family
+    for fam in fams:
+        for w in fam:
+            H(w)
+        for w in reversed(fam):
+            H(w)
     # random short words with many repeats
     nshort = 1500 if tier == "quick" else 20000
     pool = []
@@ -69,7 +77,9 @@ def check(res):
     exe = build_driver("c03_driver", "asan")
     gen = build_gen_driver()
     known = f["words"]["known_words"]["rows"]
-    ws = gen_stream(res.tier, res.seed, known)
+    import hashcollide
+    fams, hnote = hashcollide.confirmed_families(res.seed, 12 if res.tier == "quick" else 200)
+    ws = gen_stream(res.tier, res.seed, known, fams)
     # normalise generated words that coincide with literal ones: none by construction (G >= 600 bytes)
     text = "\n".join(line_of(w) for w in ws) + "\n"
     pi = run([exe], input=text, timeout=3600, env=SAN_ENV)
@@ -141,11 +151,13 @@ def check(res):
         "evaluations": len(ws), "distinct_nontrivial": len([k for k in first if (k[0] == "G" or len(k[1]) > 0)]),
         "rule": "word stream: every length 0..41 and around the 8-byte inline and 16-byte granule boundaries; all 256 byte values, embedded NULs; "
                 "one-byte neighbours; every reserved word with prefix/extension/edit near misses; seeded short words with 40% repeats; generated big "
-                "words crossing pool capacity and the oversize path; repeats after pool roll-over. distinct non-trivial = distinct non-empty contents",
+                "words crossing pool capacity and the oversize path; repeats after pool roll-over; families of distinct words with EQUAL std::hash codes "
+                "(different lengths, strict prefixes of one another, equal lengths), each interned twice. distinct non-trivial = distinct non-empty contents",
         "samples": [line_of(w)[:120] for w in (ws[5], ws[60], ws[len(ws) // 2], ws[-5])],
         "traces_validated_against_impl": min(len(il), len(ml)),
         "input_distribution": {"length_histogram_top": {str(k): v for k, v in sorted(lens.items(), key=lambda kv: -kv[1])[:12]},
-                               "max_length": max(lens), "reserved_words": len(known), "total_words": len(ws)},
+                               "max_length": max(lens), "reserved_words": len(known), "total_words": len(ws),
+                               "equal_hash_words": hnote},
         "model_branch_tags_hit": tags.split(","),
     })
     want = {"empty", "reserved", "hit", "miss", "miss-collide"}
